@@ -388,25 +388,44 @@ def s_no_alias(tier):
             for e in x:
                 yield from arrays(e)
 
-    def check(name, fn, args):
-        res = fn()
+    def same(x, y):
+        xs, ys = list(arrays(x)), list(arrays(y))
+        return len(xs) == len(ys) and all(p.shape == q_.shape and np.array_equal(p, q_) for p, q_ in zip(xs, ys))
+
+    def check(name, fn, args, mutable=None):
+        """fn(*args) evaluates the method; `mutable`: positions of the arguments that are state (overwritten in place below)"""
+        res = fn(*args)
         bad = [i for i, a in enumerate(args) if isinstance(a, np.ndarray) and any(np.shares_memory(r, a) for r in arrays(res))]
         # second evaluation (served from the cache) must not alias the arguments of the FIRST call either
-        res2 = fn()
+        res2 = fn(*args)
         bad += [i for i, a in enumerate(args) if isinstance(a, np.ndarray) and any(np.shares_memory(r, a) for r in arrays(res2))]
         out.append(dict(name=f"{name}: result shares no memory with its arguments", ok=not bad, backend="native-execution (np.shares_memory)", show=f"arguments aliased: {sorted(set(bad))}", detail=f"the memoised result is a view of argument(s) {sorted(set(bad))}", replay={"method": name, "aliased_arguments": sorted(set(bad))} if bad else None))
+        # the caller overwrites its arrays IN PLACE and asks again with the very same array objects: the answer is the one for
+        # the new values (what the same call returns for copies of them) - a memo keyed on the identity of an argument, or a
+        # cached view of it, answers with the old state
+        first = [np.array(r, copy=True) for r in arrays(res)]
+        for i in range(len(args)) if mutable is None else mutable:
+            if isinstance(args[i], np.ndarray) and args[i].size:
+                args[i][...] = args[i] * rng.uniform(0.6, 1.5) + 0.2 * rng.normal(size=args[i].shape)
+        again = fn(*args)
+        fresh = fn(*[a.copy() if isinstance(a, np.ndarray) else a for a in args])
+        ok = same(again, fresh)
+        out.append(dict(name=f"{name}: asked again with the same array objects overwritten in place, it evaluates the new values", ok=ok, backend="native-execution (second call on overwritten arguments vs copies)", show="equal" if ok else "differs from the evaluation on copies of the new values", detail="the second call returned a result that does not belong to the current contents of its arguments", replay=None if ok else {"method": name, "stale": bool(same(again, first))}))
 
     rb = RigidBody(1.0, np.diag([1.0, 2.0, 3.0]))
     for tag, B in (("default offset", None), ("zero offset", np.zeros(3)), ("non-zero offset", rng.normal(size=3))):
         q, u = np.concatenate([rng.normal(size=3), rng.normal(size=4)]), rng.normal(size=6)
         kw = {} if B is None else {"B_r_CP": B}
         extra = [] if B is None else [B]
-        check(f"RigidBody.r_OP [{tag}]", lambda: rb.r_OP(0.0, q, **kw), [q] + extra)
-        check(f"RigidBody.v_P [{tag}]", lambda: rb.v_P(0.0, q, u, **kw), [q, u] + extra)
-        check(f"RigidBody.J_P [{tag}]", lambda: rb.J_P(0.0, q, **kw), [q] + extra)
+        kwof = (lambda B_: {"B_r_CP": B_[0]} if B_ else {})
+        # (a zero offset stays zero: only the state arguments are overwritten for that variant)
+        mut = None if tag == "non-zero offset" else ([0], [0, 1])
+        check(f"RigidBody.r_OP [{tag}]", lambda q_, *B_: rb.r_OP(0.0, q_, **kwof(B_)), [q] + extra, mutable=mut and mut[0])
+        check(f"RigidBody.v_P [{tag}]", lambda q_, u_, *B_: rb.v_P(0.0, q_, u_, **kwof(B_)), [q, u] + extra, mutable=mut and mut[1])
+        check(f"RigidBody.J_P [{tag}]", lambda q_, *B_: rb.J_P(0.0, q_, **kwof(B_)), [q] + extra, mutable=mut and mut[0])
     q = np.concatenate([rng.normal(size=3), rng.normal(size=4)])
-    check("RigidBody.A_IB", lambda: rb.A_IB(0.0, q), [q])
-    check("RigidBody.A_IB_q", lambda: rb.A_IB_q(0.0, q), [q])
+    check("RigidBody.A_IB", lambda q_: rb.A_IB(0.0, q_), [q])
+    check("RigidBody.A_IB_q", lambda q_: rb.A_IB_q(0.0, q_), [q])
     b1, b2 = RigidBody(1.0, np.eye(3)), RigidBody(1.0, np.eye(3))
     for i, b_ in enumerate((b1, b2)):
         b_.qDOF, b_.uDOF = np.arange(7) + 7 * i, np.arange(6) + 6 * i
@@ -416,7 +435,7 @@ def s_no_alias(tier):
     c.assembler_callback()
     qq = np.concatenate([b1.q0 + 0.1 * rng.normal(size=7), b2.q0 + 0.3 * rng.normal(size=7)])
     for nm in ("n", "n_q1_q2", "t1t2", "t1t2_q1_q2"):
-        check(f"Sphere2Sphere.{nm}", lambda nm=nm: getattr(c, nm)(0.0, qq), [qq])
+        check(f"Sphere2Sphere.{nm}", lambda q_, nm=nm: getattr(c, nm)(0.0, q_), [qq])
     from cardillo.rods import CircularCrossSection, Simo1986
     from cardillo.rods.cosseratRod import make_CosseratRod
 
@@ -430,8 +449,9 @@ def s_no_alias(tier):
                 qe = (q0 + 0.05 * rng.normal(size=len(q0)))[rod.local_qDOF_P(xi)]
                 el = rod.element_number(xi)
                 N, N_xi = rod.basis_functions_r(xi, el)
-                check(f"rod[{interp}]._eval (xi={xi})", lambda: rod._eval(qe, xi, N, N_xi), [qe, N, N_xi])
-                check(f"rod[{interp}]._deval (xi={xi})", lambda: rod._deval(qe, xi, N, N_xi), [qe, N, N_xi])
+                # (N, N_xi are the basis functions AT xi - a declared dependency of the key - so only qe is overwritten)
+                check(f"rod[{interp}]._eval (xi={xi})", lambda qe_, N_, Nx_: rod._eval(qe_, xi, N_, Nx_), [qe, N, N_xi], mutable=[0])
+                check(f"rod[{interp}]._deval (xi={xi})", lambda qe_, N_, Nx_: rod._deval(qe_, xi, N_, Nx_), [qe, N, N_xi], mutable=[0])
                 for tag, B in (("zero offset", np.zeros(3)), ("non-zero offset", rng.normal(size=3))):
-                    check(f"rod[{interp}].r_OP (xi={xi}, {tag})", lambda: rod.r_OP(0.0, qe, xi, B), [qe, B])
+                    check(f"rod[{interp}].r_OP (xi={xi}, {tag})", lambda qe_, B_: rod.r_OP(0.0, qe_, xi, B_), [qe, B], mutable=None if tag == "non-zero offset" else [0])
     return out
